@@ -108,7 +108,7 @@ where
             PacketStreamState::ReadPacketLen => {
                 // Omit packet ID, try to read the remaining length.
                 let maybe_remaining_len =
-                    VarSizeInt::try_from(&buf[1..]).map(Some).or_else(|err| {
+                    VarSizeInt::try_from(&buf[1..*size]).map(Some).or_else(|err| {
                         if let ConversionError::InsufficientBufferSize(_) = err {
                             return Ok(None); // Need to read more data
                         }
